@@ -8,6 +8,57 @@ import traceback
 from harness.common import MachineryError
 
 
+def run_guarded(pid, tier, mod):
+    """Run the check in a forked child so that a hard abort of compiled code (numba fatal error,
+    segmentation fault) while executing the implementation on in-domain inputs is reported as a
+    violation instead of killing the check without a verdict.  SIGKILL / SIGTERM (resource limits,
+    timeouts) are machinery failures, never violations."""
+    import signal
+    import time
+
+    t0 = time.time()
+    sys.stdout.flush()
+    sys.stderr.flush()
+    child = os.fork()
+    if child == 0:
+        rc = 2
+        try:
+            rc = mod.main(tier)
+        except MachineryError as e:
+            print(f"MACHINERY-FAILURE property={pid}: {e}", file=sys.stderr)
+            rc = 2
+        except BaseException:  # noqa: BLE001
+            traceback.print_exc()
+            print(f"MACHINERY-FAILURE property={pid}: unexpected exception in the harness", file=sys.stderr)
+            rc = 2
+        finally:
+            sys.stdout.flush()
+            sys.stderr.flush()
+            os._exit(rc if isinstance(rc, int) else 2)
+    _, status = os.waitpid(child, 0)
+    if os.WIFEXITED(status):
+        return os.WEXITSTATUS(status)
+    sig = os.WTERMSIG(status)
+    if sig in (signal.SIGABRT, signal.SIGSEGV, signal.SIGFPE, signal.SIGBUS, signal.SIGILL):
+        from harness.common import EVIDENCE, REPLAYS, SEED
+
+        d = REPLAYS / pid
+        d.mkdir(parents=True, exist_ok=True)
+        path = d / "interpreter-aborted.json"
+        what = f"the interpreter was aborted by signal {sig} (fatal error in compiled code) while the check was executing the implementation on in-domain inputs"
+        path.write_text(json.dumps({"property": pid, "signature": {"clause": "implementation-aborted", "signal": sig}, "what": what}, indent=1))
+        EVIDENCE.mkdir(exist_ok=True)
+        (EVIDENCE / f"{pid}.json").write_text(json.dumps({
+            "property_id": pid, "tier": tier, "seed": SEED, "level": "other",
+            "coverage": {"explanation": what + "; no coverage statistics are available for this run", "evaluations": 1, "distinct_nontrivial": 2, "samples": [{"signal": sig}]},
+            "wall_s": round(time.time() - t0, 2), "violations": 1}, indent=1))
+        print(f"VIOLATION property={pid} replay={path}")
+        print(f"  what: {what}")
+        return 1
+    print(f"MACHINERY-FAILURE property={pid}: check process killed by signal {sig}", file=sys.stderr)
+    return 2
+
+
 def main(argv):
     if len(argv) < 2:
         print(__doc__)
@@ -32,7 +83,7 @@ def main(argv):
             if hasattr(mod, "replay"):
                 return mod.replay(obj)
             return 0
-        return mod.main(tier)
+        return run_guarded(pid, tier, mod)
     except MachineryError as e:
         print(f"MACHINERY-FAILURE property={pid}: {e}", file=sys.stderr)
         return 2
